@@ -605,3 +605,23 @@ def add_abstract_leaf(env, name, cols, engine, table, min_rows=0, max_rows=None)
     env.leaves[name] = rel
     env.tables[name] = table
     return rel
+
+
+def make_op(node, env):
+    """Real UnaryOperation object for a unary template node (the child slot node[1] is ignored)."""
+    from lsst.daf.relation import Calculation, Deduplication, Projection, Selection, Slice, Sort, SortTerm
+
+    op = node[0]
+    if op == "calc":
+        return Calculation(env.tags[node[2]], lib_expr(env, node[3]))
+    if op == "proj":
+        return Projection(frozenset(env.tags[c] for c in node[2]))
+    if op == "sel":
+        return Selection(lib_expr(env, node[2]))
+    if op == "dedup":
+        return Deduplication()
+    if op == "sort":
+        return Sort(tuple(SortTerm(lib_expr(env, e), asc) for e, asc in node[2]))
+    if op == "slice":
+        return Slice(0 if node[2] is None else env.val(node[2]), None if node[3] is None else env.val(node[3]))
+    raise TypeError(node)
